@@ -19,52 +19,52 @@ type stdFn struct {
 
 // the standard-library functions the translated code may call, with their GoRt counterparts
 var g2lStd = map[string]stdFn{
-	"strings.HasPrefix":      {"hasPrefix", false},
-	"strings.HasSuffix":      {"hasSuffix", false},
-	"strings.IndexByte":      {"indexByte", false},
-	"strings.LastIndexByte":  {"lastIndexByte", false},
-	"strings.Index":          {"index", false},
-	"strings.LastIndex":      {"lastIndex", false},
-	"strings.Contains":       {"contains", false},
-	"strings.ContainsRune":   {"containsRune", false},
-	"strings.ContainsAny":    {"containsAny", false},
-	"bytes.TrimSpace":        {"trimSpace", false},
-	"strings.TrimSpace":      {"trimSpace", false},
-	"strings.TrimPrefix":     {"trimPrefix", false},
-	"strings.TrimSuffix":     {"trimSuffix", false},
-	"strings.Count":          {"count", false},
-	"strings.Cut":            {"cut", false},
-	"strings.Repeat":         {"repeatB", true},
-	"bytes.HasPrefix":        {"hasPrefix", false},
-	"bytes.HasSuffix":        {"hasSuffix", false},
-	"bytes.IndexByte":        {"indexByte", false},
-	"bytes.Index":            {"index", false},
-	"bits.TrailingZeros64":   {"trailingZeros64", false},
-	"bits.Len64":             {"len64", false},
-	"strconv.Itoa":           {"itoa", false},
-	"strconv.Atoi":           {"atoi", false},
-	"strconv.ParseInt":       {"parseInt", false},
-	"strconv.FormatInt":      {"formatInt", false},
-	"strings.SplitN":         {"splitN", false},
-	"bytes.Count":            {"count", false},
-	"utf8.DecodeRune":        {"decodeRune", false},
-	"bytes.Contains":         {"contains", false},
-	"bytes.Equal":            {"bytesEq", false},
-	"bytes.LastIndex":        {"lastIndex", false},
-	"bytes.TrimSuffix":       {"trimSuffix", false},
-	"bytes.TrimPrefix":       {"trimPrefix", false},
-	"strings.Split":          {"split", false},
-	"strings.IndexFunc":      {"indexFunc", false},
-	"strings.Join":           {"join", false},
-	"strings.Fields":         {"fields", false},
-	"strings.ToLower":        {"toLowerASCIIorUnicode", false},
-	"utf8.RuneError":         {"(65533 : Int)", false},
-	"utf8.ValidString":       {"validUtf8", false},
+	"strings.HasPrefix":       {"hasPrefix", false},
+	"strings.HasSuffix":       {"hasSuffix", false},
+	"strings.IndexByte":       {"indexByte", false},
+	"strings.LastIndexByte":   {"lastIndexByte", false},
+	"strings.Index":           {"index", false},
+	"strings.LastIndex":       {"lastIndex", false},
+	"strings.Contains":        {"contains", false},
+	"strings.ContainsRune":    {"containsRune", false},
+	"strings.ContainsAny":     {"containsAny", false},
+	"bytes.TrimSpace":         {"trimSpace", false},
+	"strings.TrimSpace":       {"trimSpace", false},
+	"strings.TrimPrefix":      {"trimPrefix", false},
+	"strings.TrimSuffix":      {"trimSuffix", false},
+	"strings.Count":           {"count", false},
+	"strings.Cut":             {"cut", false},
+	"strings.Repeat":          {"repeatB", true},
+	"bytes.HasPrefix":         {"hasPrefix", false},
+	"bytes.HasSuffix":         {"hasSuffix", false},
+	"bytes.IndexByte":         {"indexByte", false},
+	"bytes.Index":             {"index", false},
+	"bits.TrailingZeros64":    {"trailingZeros64", false},
+	"bits.Len64":              {"len64", false},
+	"strconv.Itoa":            {"itoa", false},
+	"strconv.Atoi":            {"atoi", false},
+	"strconv.ParseInt":        {"parseInt", false},
+	"strconv.FormatInt":       {"formatInt", false},
+	"strings.SplitN":          {"splitN", false},
+	"bytes.Count":             {"count", false},
+	"utf8.DecodeRune":         {"decodeRune", false},
+	"bytes.Contains":          {"contains", false},
+	"bytes.Equal":             {"bytesEq", false},
+	"bytes.LastIndex":         {"lastIndex", false},
+	"bytes.TrimSuffix":        {"trimSuffix", false},
+	"bytes.TrimPrefix":        {"trimPrefix", false},
+	"strings.Split":           {"split", false},
+	"strings.IndexFunc":       {"indexFunc", false},
+	"strings.Join":            {"join", false},
+	"strings.Fields":          {"fields", false},
+	"strings.ToLower":         {"toLowerASCIIorUnicode", false},
+	"utf8.RuneError":          {"(65533 : Int)", false},
+	"utf8.ValidString":        {"validUtf8", false},
 	"utf8.DecodeRuneInString": {"decodeRune", false},
-	"utf8.RuneCountInString": {"runeCount", false},
-	"unicode.IsLetter":       {"unicodeIsLetter", false},
-	"unicode.IsSpace":        {"unicodeIsSpace", false},
-	"unicode.IsPrint":        {"unicodePrint", false},
+	"utf8.RuneCountInString":  {"runeCount", false},
+	"unicode.IsLetter":        {"unicodeIsLetter", false},
+	"unicode.IsSpace":         {"unicodeIsSpace", false},
+	"unicode.IsPrint":         {"unicodePrint", false},
 }
 
 func (f *g2lFn) calleeName(e *ast.CallExpr) (pkg, name string, obj types.Object) {
@@ -1158,6 +1158,14 @@ func (f *g2lFn) assignedOuter(nodes []ast.Node, before token.Pos) []*types.Var {
 				e = x.X
 				continue
 			case *ast.IndexExpr:
+				if _, isV := f.viewVar(x.X); isV {
+					// a store through a view of a line's tokens changes the heap, not the view variable
+					if f.worldVar != nil && f.declaredBefore(f.worldVar, before) && !seen[f.worldVar] {
+						seen[f.worldVar] = true
+						out = append(out, f.worldVar)
+					}
+					return
+				}
 				e = x.X
 				continue
 			case *ast.ParenExpr:
